@@ -355,16 +355,60 @@ def run(ctx, lean_ok):
     _grace, _sd50, _dens, _lid50 = psf.grace, psf.sintef_d50, dbm.FluidMixture.density, psf.li_etal_d50
     rec = {}
 
-    def grace_rec(*a, **k):
-        key = (tuple(float(x) for x in a), tuple(sorted(k.items())))
+    _find_de = psf.find_de
+    cur = {'p': None, 'sd50': None, 'd0': None}      # harness-held inputs of the case being run
+    GRACE_TOL = 1e-7          # |find_de(de_max)| <= 1e-7 s  (d residual / d ln de is about 0.1 s: 1e-6 relative in de_max)
+    grace_bad = []
+
+    def cap_gas(pp):
+        """maximum stable bubble size from the HARNESS's property values (psf.grace is a pure function: evaluated once per
+        property set), with the residual of Grace et al.'s root problem evaluated at it from the same harness-held values"""
+        key = (pp['rho'], pp['rho_gas'], pp['mu'], pp['mu_gas'], pp['sigma_gas'])
         if key not in memo:
-            memo[key] = float(_grace(*a, **k))          # psf.grace is a pure function of its arguments: evaluated once per property set
-        rec['grace'] = memo[key]
+            rho_c, rho_d, mu_c, mu_d, sig = key
+            de = float(_grace(rho_c, rho_d, mu_c, mu_d, sig, fp_type=0))
+            dpr = abs(rho_c - rho_d)
+            lam_crit = 2. * math.pi * math.sqrt(sig / (psf.G * dpr))
+            res = float(_find_de(de, rho_d, rho_c, mu_d, mu_c, sig, mu_d / rho_d, mu_c / rho_c, psf.G, dpr, mu_d / mu_c, lam_crit, 3.8))
+            if not (de > 0 and abs(res) <= GRACE_TOL):
+                grace_bad.append({'properties': key, 'de_max': de, 'residual': res})
+            memo[key] = de
         return memo[key]
 
-    def sd50_rec(u0, d0, *a, **k):
-        v = _sd50(u0, d0, *a, **k)
-        rec['dp'] = float(v) / float(d0)
+    def cap_oil(pp):
+        return 4. * math.sqrt(pp['sigma_oil'] / (9.81 * (pp['rho'] - pp['rho_oil'])))
+
+    def grace_rec(*a, **k):
+        pp = cur['p']
+        want = (pp['rho'], pp['rho_gas'], pp['mu'], pp['mu_gas'], pp['sigma_gas'])
+        got = tuple(float(x) for x in a[:5])
+        fpt = a[5] if len(a) > 5 else k.get('fp_type', 0)
+        if got != want or fpt != 0 or len(a) < 5:
+            ctx.violation('grace-called-with-wrong-arguments', 'psf.grace (maximum stable bubble size) is called with other values than the gas / water '
+                          'properties of the release', {'expected (rho, rho_gas, mu, mu_gas, sigma_gas, fp_type=0)': list(want), 'called with': [list(got), fpt]})
+            v = float(_grace(*a, **k))
+        else:
+            v = cap_gas(pp)
+        rec['grace'] = v
+        return v
+
+    def sd50_rec(u0, d0, rho_p, mu_p, sigma, rho, *a, **k):
+        v = _sd50(u0, d0, rho_p, mu_p, sigma, rho, *a, **k)
+        dp = float(v) / float(d0)
+        rec['dp'] = dp
+        exp = cur['sd50']
+        if exp is not None:
+            if (float(d0), float(rho_p), float(mu_p), float(sigma), float(rho)) != exp:
+                ctx.violation('sintef_d50-called-with-wrong-arguments', 'psf.sintef_d50 is called with other values than the orifice / fluid properties of the requested phase',
+                              {'expected (d0, rho_p, mu_p, sigma, rho)': list(exp), 'called with': [float(d0), float(rho_p), float(mu_p), float(sigma), float(rho)]})
+            # residual of the modified Weber number equation from the harness-held properties and the velocity the code used
+            We = exp[1] * float(u0) ** 2 * exp[0] / exp[3]
+            Vi = exp[2] * float(u0) / exp[3]
+            if We > 350. and dp > 0:
+                resid['n2'] = resid.get('n2', 0) + 1
+                rr_ = dp - 24.8 * (We / (1. + 0.08 * Vi * dp ** (1. / 3.))) ** (-3. / 5.)
+                if not abs(rr_) <= RESID_TOL * dp:
+                    resid['bad'].append({'d0': exp[0], 'rho_p': exp[1], 'mu_p': exp[2], 'sigma': exp[3], 'u0': float(u0), 'dp': dp, 'residual': rr_})
         return v
 
     def lid50_rec(*a, **k):
@@ -432,6 +476,15 @@ def run(ctx, lean_ok):
     def opt(x):
         return None if x is None else float(x)
 
+    def cap_check(site, phase, dm, cap, case):
+        # the maximum stable size the code reports against the harness's own value (oil: Clift et al. formula from the harness's
+        # properties; gas: psf.grace evaluated by the harness on its own properties, residual-checked)
+        if dm is None or not close(float(dm), cap, 1e-12):
+            ctx.violation('de_max-differs-from-independent:%s:%s' % (site, phase), '%s reports a maximum stable %s size that is not the one of the release properties'
+                          % (site, 'bubble' if phase == 'gas' else 'droplet'), dict(case, reported=opt(dm), independent=cap))
+            return False
+        return True
+
     # ================= (D) psf.sintef / li_etal / wang_etal ====================================
     ndrv = ctx.n(240, 8000)
     for i in range(ndrv):
@@ -453,6 +506,8 @@ def run(ctx, lean_ok):
             case = dict(p, model='sintef', d0=d0, m_gas=mgv, m_oil=mov, fp_type=fp, use_d95=use95)
             ctx.count('sintef fp=%d flows: %s' % (fp, flows))
             ctx.nontrivial.add(('sintef',) + key12(d0, mgv, mov, fp, use95, p['rho_oil'], p['rho_gas']))
+            cur['p'], cur['sd50'] = p, (float(d0), p['rho_gas'] if fp == 0 else p['rho_oil'], mu_p, sg, p['rho'])
+            cap = cap_gas(p) if fp == 0 else cap_oil(p)
             res, exc, res2 = call(lambda: psf.sintef(d0, np.array(mgv), p['rho_gas'], np.array(mov), p['rho_oil'], mu_p, sg, p['rho'], p['mu'],
                                                      fp_type=fp, use_d95=use95), mg, mo)
             if exc is not None:
@@ -467,17 +522,19 @@ def run(ctx, lean_ok):
             if q_req > 0:
                 if not (d50 > 0 and dm is not None and dm > 0 and math.isfinite(d50)):
                     ctx.violation('sintef:median-not-positive', 'sintef: flowing phase without a positive median / d_max', dict(case, got=[d50, dm]))
-                elif use95 and not d50 * (math.log(0.05) / k) ** (1. / al) <= dm * (1 + 1e-9):
+                elif not cap_check('sintef', 'gas' if fp == 0 else 'oil', dm, cap, case):
+                    pass
+                elif use95 and not d50 * (math.log(0.05) / k) ** (1. / al) <= cap * (1 + 1e-9):
                     ctx.violation('d95-exceeds-dmax:sintef', 'sintef: 95th percentile exceeds the maximum stable size', dict(case, got=[d50, dm, k, al]))
                 elif not use95:
                     # use_d95=False is the documented switch that turns the d95 rule OFF ("True means to use the rule"); what the
                     # option promises instead (sintef.modified_We_model: "the lesser of the estimated particle size or the maximum
                     # stable particle size") is the cap on the MEDIAN
                     ctx.count('sintef use_d95=False: d95 %s d_max (rule switched off by the caller; not demanded)'
-                              % ('<=' if d50 * (math.log(0.05) / k) ** (1. / al) <= dm else '>'))
-                    if not d50 <= dm * (1 + 1e-12):
+                              % ('<=' if d50 * (math.log(0.05) / k) ** (1. / al) <= cap else '>'))
+                    if not d50 <= cap * (1 + 1e-12):
                         ctx.violation('sintef:use_d95-false:median-exceeds-dmax', 'sintef(use_d95=False): the median exceeds the maximum stable size', dict(case, got=[d50, dm]))
-            grace_v, dp_v = rec.get('grace', 0.0), rec.get('dp', 0.0)
+            grace_v, dp_v = cap_gas(p), rec.get('dp', 0.0)
 
             def cb(o, d50=d50, dm=dm, k=k, al=al, case=case, dp_v=dp_v, q_req=q_req):
                 corr('Model.Psf.sintef vs psf.sintef', [o[0], o[2] if o[1] == 1 else -1.0, o[3], o[4]], [d50, dm if dm is not None else -1.0, k, al], case)
@@ -493,6 +550,8 @@ def run(ctx, lean_ok):
             case = dict(p, model='li_etal', d0=d0, m_gas=mgv, m_oil=mov, fp_type=fp)
             ctx.count('li_etal fp=%d flows: %s' % (fp, flows))
             ctx.nontrivial.add(('li',) + key12(d0, mgv, mov, fp, p['rho_oil'], p['rho_gas']))
+            cur['p'], cur['sd50'] = p, None
+            cap = cap_gas(p) if fp == 0 else cap_oil(p)
             res, exc, res2 = call(lambda: psf.li_etal(d0, np.array(mgv), p['rho_gas'], np.array(mov), p['rho_oil'], mu_p, sg, p['rho'], p['mu'], fp_type=fp), mg, mo)
             if exc is not None:
                 fp_violation('psf.li_etal', exc, case, mg, mo)
@@ -506,11 +565,13 @@ def run(ctx, lean_ok):
             if q_req > 0:
                 if not (d50 > 0 and dm is not None and dm > 0 and math.isfinite(d50)):
                     ctx.violation('li_etal:median-not-positive', 'li_etal: flowing phase without a positive median / d_max', dict(case, got=[d50, dm]))
-                elif not d50 * (math.log(0.05) / k) ** (1. / al) <= dm * (1 + 1e-9):
+                elif not cap_check('li_etal', 'gas' if fp == 0 else 'oil', dm, cap, case):
+                    pass
+                elif not d50 * (math.log(0.05) / k) ** (1. / al) <= cap * (1 + 1e-9):
                     ctx.violation(li_cap_key(d50), 'li_etal: 95th percentile of the fitted distribution exceeds the maximum stable size (the d95 rule is never applied)',
                                   dict(case, got=[d50, dm, k, al], d95=d50 * (math.log(0.05) / k) ** (1. / al)))
             if True:        # since fix 9f1b754 li_etal is defined (empty parameters) with neither phase flowing, too
-                ask(req('Psf.li_etal', rec.get('grace', 0.0), d0, mgv, p['rho_gas'], mov, p['rho_oil'], mu_p, sg, p['rho'], p['mu'], fp),
+                ask(req('Psf.li_etal', cap_gas(p), d0, mgv, p['rho_gas'], mov, p['rho_oil'], mu_p, sg, p['rho'], p['mu'], fp),
                     lambda o, d50=d50, dm=dm, k=k, al=al, case=case: corr('Model.Psf.liEtal vs psf.li_etal', [o[0], o[2] if o[1] == 1 else -1.0, o[3], o[4]],
                                                                             [d50, dm if dm is not None else -1.0, k, al], case))
         else:
@@ -518,6 +579,8 @@ def run(ctx, lean_ok):
             case = dict(p, model='wang_etal', d0=d0, m_gas=mgv, m_oil=mov, P=Pj)
             ctx.count('wang_etal flows: %s' % flows)
             ctx.nontrivial.add(('wang',) + key12(d0, mgv, mov, Pj, p['rho_oil'], p['rho_gas']))
+            cur['p'], cur['sd50'] = p, None
+            cap = cap_gas(p)
             res, exc, res2 = call(lambda: psf.wang_etal(d0, np.array(mgv), p['rho_gas'], p['mu_gas'], p['sigma_gas'], p['rho'], p['mu'],
                                                         m_l=np.array(mov), rho_l=p['rho_oil'], P=Pj, T=288.15), mg, mo)
             if exc is not None:
@@ -531,13 +594,15 @@ def run(ctx, lean_ok):
             if mg > 0:
                 if not (d50 > 0 and dm is not None and dm > 0 and math.isfinite(d50)):
                     ctx.violation('wang_etal:median-not-positive', 'wang_etal: flowing gas without a positive median / d_max', dict(case, got=[d50, dm]))
-                elif not math.exp(math.log(d50) + 1.6449 * sg) <= dm * (1 + 1e-9):
+                elif not cap_check('wang_etal', 'gas', dm, cap, case):
+                    pass
+                elif not math.exp(math.log(d50) + 1.6449 * sg) <= cap * (1 + 1e-9):
                     ctx.violation('d95-exceeds-dmax:wang_etal', 'wang_etal: 95th percentile exceeds the maximum stable size', dict(case, got=[d50, dm, sg]))
                 if m_g > math.fsum(mgv) * (1 + 1e-9):
                     ctx.count('wang_etal returns more gas than supplied (not part of C16)')
             ch4 = rec.get('ch4', [])
             if flows != 'none' and len(ch4) == 2:
-                ask(req('Psf.wang_etal', rec.get('grace', 0.0), ch4[0], ch4[1], d0, mgv, p['rho_gas'], p['mu_gas'], p['sigma_gas'], p['rho'], p['mu'],
+                ask(req('Psf.wang_etal', cap_gas(p), ch4[0], ch4[1], d0, mgv, p['rho_gas'], p['mu_gas'], p['sigma_gas'], p['rho'], p['mu'],
                         mov, p['rho_oil'], Pj),
                     lambda o, d50=d50, m_g=m_g, m_o=m_o, dm=dm, sg=sg, case=case: corr(
                         'Model.Psf.wang vs psf.wang_etal', [o[0], o[1], o[2], o[4] if o[3] == 1 else -1.0, o[5]],
@@ -569,6 +634,8 @@ def run(ctx, lean_ok):
             mb.simulate(d0, mg, mo, model_gas, model_oil, pdf_gas, pdf_oil, Pj, 288.15)
             out = mb.get_distributions(nbg, nbo)
             return mb, out
+        cur['p'], cur['sd50'] = p, ((float(d0), p['rho_oil'], p['mu_oil'], p['sigma_oil'], p['rho']) if model_oil == 'sintef' else None)
+        capg, capo = cap_gas(p), cap_oil(p)
         res, exc, res2 = call(go, mg, mo)
         raised_attr = False
         if exc is not None:
@@ -583,7 +650,7 @@ def run(ctx, lean_ok):
             else:
                 fname, func, lineno, _ln = tamoc_site(exc)
                 ctx.violation('ModelBase:raises:%s:%s' % (type(exc).__name__, func), 'ModelBase raised %s: %s (%s l.%d)' % (type(exc).__name__, exc, fname, lineno), case)
-        grace_v, dp_v, ch4 = rec.get('grace', 0.0), rec.get('dp', 0.0), rec.get('ch4', [0.0, 1.0])
+        grace_v, dp_v, ch4 = capg, rec.get('dp', 0.0), rec.get('ch4', [0.0, 1.0])
         mgi, pgi = MG.index(model_gas), PD.index(pdf_gas)
         moi, poi = MO.index(model_oil), PD.index(pdf_oil)
         if len(ch4) < 2:
@@ -597,22 +664,30 @@ def run(ctx, lean_ok):
                 else:
                     dist_predicates(ctx, 'ModelBase', de, vf, nb, case, tag=':' + phase)
             # the cap on the parameters actually used for the distributions
-            if mo > 0:
+            if mo > 0 and not (float(mb.d50_oil) > 0 and math.isfinite(float(mb.d50_oil))):
+                ctx.violation('ModelBase:median-not-positive:oil', 'ModelBase: flowing oil phase without a positive median', dict(case, d50=float(mb.d50_oil)))
+            elif mo > 0:
                 if pdf_oil == 'rosin-rammler':
                     d95 = mb.d50_oil * (math.log(0.05) / mb.k_oil) ** (1. / mb.alpha_oil)
                 else:
                     d95 = math.exp(math.log(mb.d50_oil) + 1.6449 * mb.sigma_ln_oil)
-                if not d95 <= mb.de_max_oil * (1 + 1e-9):
+                if not cap_check('ModelBase.' + model_oil, 'oil', mb.de_max_oil, capo, case):
+                    pass
+                elif not d95 <= capo * (1 + 1e-9):
                     ctx.violation(li_cap_key(mb.d50_oil) if model_oil == 'li_etal' else 'd95-exceeds-dmax:' + model_oil, 'ModelBase: 95th percentile of the oil distribution exceeds the maximum stable size',
-                                  dict(case, d50=float(mb.d50_oil), d95=float(d95), de_max=float(mb.de_max_oil)))
-            if mg > 0:
+                                  dict(case, d50=float(mb.d50_oil), d95=float(d95), de_max=capo))
+            if mg > 0 and not (float(mb.d50_gas) > 0 and math.isfinite(float(mb.d50_gas))):
+                ctx.violation('ModelBase:median-not-positive:gas', 'ModelBase: flowing gas phase without a positive median', dict(case, d50=float(mb.d50_gas)))
+            elif mg > 0:
                 if pdf_gas == 'rosin-rammler':
                     d95 = mb.d50_gas * (math.log(0.05) / mb.k_gas) ** (1. / mb.alpha_gas)
                 else:
                     d95 = math.exp(math.log(mb.d50_gas) + 1.6449 * mb.sigma_ln_gas)
-                if not d95 <= mb.de_max_gas * (1 + 1e-9):
+                if not cap_check('ModelBase.' + model_gas, 'gas', mb.de_max_gas, capg, case):
+                    pass
+                elif not d95 <= capg * (1 + 1e-9):
                     ctx.violation(li_cap_key(mb.d50_gas) if model_gas == 'li_etal' else 'd95-exceeds-dmax:' + model_gas, 'ModelBase: 95th percentile of the gas distribution exceeds the maximum stable size',
-                                  dict(case, d50=float(mb.d50_gas), d95=float(d95), de_max=float(mb.de_max_gas)))
+                                  dict(case, d50=float(mb.d50_gas), d95=float(d95), de_max=capg))
             ask(req('Psf.mb_gas', grace_v, ch4[0], ch4[1], mgi, pgi, nbg, d0, mg, mo, p['rho_gas'], p['mu_gas'], p['sigma_gas'], p['rho_oil'], p['rho'], p['mu'], Pj),
                 lambda o, de=fl(de_g), vf=fl(vf_g), case=case: (corr('Model.Psf.mbGas vs ModelBase (gas) de', o[1] if o[0] == 1 else None, de, case, tol=1e-10),
                                                                corr('Model.Psf.mbGas vs ModelBase (gas) vf', o[2] if o[0] == 1 else None, vf, case, tol=1e-10)))
@@ -642,5 +717,10 @@ def run(ctx, lean_ok):
                    % (resid['n'], RESID_TOL), not resid['bad'], repr(resid['bad'][:2]))
         for b in resid['bad'][:3]:
             ctx.broken.append(('oracle', 'sintef_d50 fsolve root', repr(b)))
+    ctx.oblige('oracle contract: psf.grace evaluated by the harness on its own property values for %d property sets is a root of Grace et al.\'s '
+               'stability problem, |find_de(de_max)| <= %g; %d further sintef_d50 roots checked from harness-held properties' % (len(memo), GRACE_TOL, resid.get('n2', 0)),
+               not grace_bad, repr(grace_bad[:2]))
+    for b in grace_bad[:3]:
+        ctx.broken.append(('oracle', 'psf.grace root', repr(b)))
     ctx.notes.append('worst relative model-vs-code differences: %r' % {k: float('%.3g' % v) for k, v in sorted(worst.items())})
     ctx.notes.append('psf.grace evaluated for %d distinct property sets (memoised: it is a pure function of its arguments)' % len(memo))
